@@ -56,7 +56,7 @@ STATEMENT_CLASSES = set(['AssignmentNode', 'InvocationStatementNode', 'ReturnNod
                          'WhileNode', 'ForEachNode', 'GenerateInstanceEventNode', 'GenerateClassEventNode',
                          'GenerateCreatorEventNode', 'GeneratePreexistingNode', 'CreateInstanceEventNode',
                          'CreateClassEventNode', 'CreateCreatorEventNode'])
-CONSTANT_NAMES = set(c[0] for c in pbgen.CONSTS)
+CONSTANT_NAMES = pbgen.UNIQUE_CONSTANT_NAMES
 EXPRESSION_CLASSES = set(['IntegerNode', 'RealNode', 'StringNode', 'BooleanNode', 'VariableAccessNode',
                           'SelfAccessNode', 'SelectedAccessNode', 'ParamAccessNode', 'FieldAccessNode',
                           'IndexAccessNode', 'EnumOrNamedConstantNode', 'UnaryOperationNode',
@@ -361,7 +361,7 @@ def check(ctx, rng, home, deciding=True):
             kind = 'literal'
         elif n.cls == 'EnumOrNamedConstantNode' and n.fields['namespace'] in ('Color', 'Mood'):
             kind = 'literal'
-        elif n.cls == 'EnumOrNamedConstantNode' and n.fields['namespace'] == 'Consts':
+        elif n.cls == 'EnumOrNamedConstantNode' and n.fields['namespace'] in ('Consts', 'Limits'):
             kind = 'constant'
         elif n.cls == 'VariableAccessNode' and n.fields['variable_name'] in CONSTANT_NAMES:
             kind = 'constant'
